@@ -125,6 +125,23 @@ theorem earliest_fit_in_placement_order_elab (p : RawProj) (h : wfCheck (elabora
   exact ⟨order, fun t r hel hs hf =>
     h1 t r hel (runScenario_scheduled_done _ t ⟨hel.el.leaf, hel.el.effort, hel.el.nomile⟩ hs) hf⟩
 
+/-- **C07 for whole projects: a list schedule in priority order** (`Proofs/EarliestFit`, `runScenario_placement`).  After
+    scheduling ANY well-formed project there are the order of placement `order` (latest first) and the tasks `rest` never
+    placed, such that the earliest-fit clause holds for `order` (as in `earliest_fit_in_placement_order`) AND the order is the
+    priority order among the tasks that could be placed: whenever `t0` was placed and `t` was placed later (`t ∈ post`) or
+    never (`t ∈ rest`), then `t0` ranks at or before `t` (priority descending, ties in declaration order), or `t` is not in
+    forward mode, or one of `t`'s predecessors is a container, or had not yet been placed when `t0` was picked, or had been
+    placed and could not be scheduled.  A task is overtaken by a lower-ranked one only while it waits for a predecessor. -/
+theorem list_schedule_in_priority_order (e : Env) (wf : WF e) (tr : Tree e) :
+    ∃ order rest : List Nat,
+      DoneFit e (runScenario e) order ∧
+      (∀ post pre t0, order = post ++ t0 :: pre → ∀ t, (t ∈ rest ∨ t ∈ post) →
+        prioLe e t0 t = true ∨ ((runScenario e).tst t).forward = false ∨
+        ∃ dp ∈ (e.taskD t).allDeps, (e.taskD dp.target).leaf = false ∨ dp.target ∉ pre ∨
+          (dp.target ∈ pre ∧ ((runScenario e).tst dp.target).scheduled = false)) := by
+  obtain ⟨order, rest, h1, h2, _, _⟩ := runScenario_placement e wf tr
+  exact ⟨order, rest, h1, h2⟩
+
 /-- every entry of the final ledger belongs to a task the loop placed (ghost order of `earliest_fit_in_placement_order`): at the
     level of one round, the ledger after scheduling `t0` holds entries of `t0` and of the tasks it held before, nothing else -/
 theorem round_adds_only_own_entries (e : Env) (wf : WF e) (σ : St) (t0 : Nat) (S : List Nat) (hinv : Inv e σ)
